@@ -904,6 +904,11 @@ func (interp *Interpreter) cfg(root *node, sc *scope, importPath, pkgName string
 				wireChild(n, unaryExpr)
 				n.findex = sc.add(sc.getType("bool"))
 				n.gen = assignFromSelect
+				for _, dest := range n.child[:2] {
+					if isMapEntry(dest) {
+						n.gen = assignMapEntry(n.gen, dest)
+					}
+				}
 				break
 			}
 			wireChild(n)
@@ -942,6 +947,14 @@ func (interp *Interpreter) cfg(root *node, sc *scope, importPath, pkgName string
 			case parenExpr:
 			default:
 				err = n.cfgErrorf("assignment mismatch: %d variables but 1 value", l)
+			}
+			for _, dest := range n.child[:l] {
+				if isMapEntry(dest) {
+					// The value is set at the location of the destination in the frame, then in the map.
+					// As we only write, skip the default useless getIndexMap dest action.
+					dest.gen = nop
+					n.gen = assignMapEntry(n.gen, dest)
+				}
 			}
 
 		case defineXStmt:
